@@ -42,6 +42,12 @@ def inputs(run: Run, cfg: dict, want_fstrings: bool = False) -> list[dict]:
         add(c["src"], "lexgen")
     for c in gens.indent(run):
         add(c["src"], "indent.tla")
+    # nesting boundaries: CPython's tokenizer takes 200 open brackets and refuses the 201st (it decides the domain here as well)
+    for d in (50, 51, 99, 100, 101, 199, 200, 201):
+        for o, c_ in (("(", ")"), ("[", "]"), ("{", "}")):
+            add("x = " + o * d + "1" + c_ * d + "\n", "nesting")
+        add("x = " + "([{" * (d // 3) + "(" * (d % 3) + "1" + ")" * (d % 3) + "}])" * (d // 3) + "\n", "nesting")
+        add("x = " + "(\n" * d + "1" + "\n)" * d + "\n", "nesting")
     sents = pyprog.sentences(run, run.tier, gram.load_ref(), only={"expr", "simple", "compound", "lambda", "params", "imports", "patterns", "try", "displays"})
     for c in pyprog.programs(run, run.tier, sents, 2, 2, cap_per_layer=cfg["cap"]):
         add(c["src"], "program:" + c["layout"])
@@ -84,8 +90,12 @@ def judge(run: Run, cases, res, fstrings: bool, prop: str):
 def check(run: Run) -> None:
     cfg = TIERS[run.tier]
     cases = inputs(run, cfg)
-    res = run_ops("c09", [{"src": c["src"]} for c in cases], limit=20.0, batch=100)
-    judge(run, cases, res, False, "C09")
+    CH = 120000   # observations (two token streams per text) are judged chunk by chunk: memory stays bounded
+    for lo in range(0, len(cases), CH):
+        part = cases[lo:lo + CH]
+        res = run_ops("c09", [{"src": c["src"]} for c in part], limit=20.0, batch=100)
+        judge(run, part, res, False, "C09")
+        del res
     run.rule = ("TLC-enumerated abstract strings per Python sub-alphabet, LexGen sequences, C01 programs x layouts, corpus x layouts; "
                 "evaluated = texts in the domain (CPython tokenizes, no xonsh-only lexeme, no f-string); distinct = distinct texts")
     run.assumptions += ["CPython 3.12.1 tokenize.generate_tokens is the oracle", "token texts compared through 24-bit CRCs"]
